@@ -1,0 +1,48 @@
+// Copyright ©2024 The bíogo Authors. All rights reserved.
+// Use of this source code is governed by a BSD-style
+// license that can be found in the LICENSE file.
+
+//go:build verif
+
+package sam
+
+import (
+	"fmt"
+	"sort"
+	"strings"
+)
+
+// VerifDump renders the private identity tables of a Header (name to id maps, ids and owner
+// flags of every item) in a canonical order, for use as part of a state key.
+func (bh *Header) VerifDump() string {
+	var sb strings.Builder
+	dump := func(name string, s set) {
+		keys := make([]string, 0, len(s))
+		for k := range s {
+			keys = append(keys, k)
+		}
+		sort.Strings(keys)
+		fmt.Fprintf(&sb, "%s{", name)
+		for _, k := range keys {
+			fmt.Fprintf(&sb, "%s:%d ", k, s[k])
+		}
+		sb.WriteString("}")
+	}
+	dump("refs", bh.seenRefs)
+	dump("rgs", bh.seenGroups)
+	dump("pgs", bh.seenProgs)
+	for _, r := range bh.refs {
+		if r == nil {
+			sb.WriteString("[nil]")
+			continue
+		}
+		fmt.Fprintf(&sb, "[r %s id%d own%v]", r.name, r.id, r.owner == bh)
+	}
+	for _, r := range bh.rgs {
+		fmt.Fprintf(&sb, "[g %s id%d own%v]", r.name, r.id, r.owner == bh)
+	}
+	for _, p := range bh.progs {
+		fmt.Fprintf(&sb, "[p %s id%d own%v]", p.uid, p.id, p.owner == bh)
+	}
+	return sb.String()
+}
